@@ -6,7 +6,9 @@ BaseValue.py, ByteArray.py), including their leniencies:
   * `ArrayHelpers.get_bytes` rejects short buffers;
   * a struct's size member clips the window (`buffer[w:size_]`) without complaint;
   * arrays advance by the *computed* size of the decoded element.
-Recursion through the schema is open (`Rec`) and closed by fuel in `encode`/`decode`/`size`.
+Recursion through the schema is open (`Rec`) and closed by fuel in `encode`/`decode`/`size`
+(fuel is spent on members and array elements; the dispatch from an abstract type to the concrete
+class of the object -- `obj.serialize()`, `Factory.deserialize` -- spends none).
 -/
 import SymbolVerif.Model.Codec.Schema
 namespace SymbolVerif.Codec
@@ -34,16 +36,21 @@ def alignUp (size alignment : Nat) : Nat := (size + alignment - 1) / alignment *
 /-! ### integers -/
 
 def inRange (w : Nat) (signed : Bool) (i : Int) : Bool :=
-  if signed then decide (-(256 ^ w / 2 : Int) ≤ i ∧ i < (256 ^ w / 2 : Int))
-  else decide (0 ≤ i ∧ i < (256 ^ w : Int))
+  let P : Nat := 256 ^ w
+  if signed then decide (-((P / 2 : Nat) : Int) ≤ i ∧ i < ((P / 2 : Nat) : Int))
+  else decide (0 ≤ i ∧ i < (P : Int))
 
 /-- `i.to_bytes(w, 'little', signed=…)`; out of range is Python's `OverflowError`. -/
 def encInt (w : Nat) (signed : Bool) (i : Int) : R Bytes :=
-  if inRange w signed i then .ok (leBytes w (i % (256 ^ w : Int)).toNat) else .error .overflow
+  if inRange w signed i then .ok (leBytes w (i % ((256 ^ w : Nat) : Int)).toNat) else .error .overflow
+
+/-- two's complement reading of an `n < P` -/
+def toSigned (P n : Nat) : Int := if 2 * n < P then (n : Int) else (n : Int) - (P : Int)
 
 /-- `int.from_bytes(buffer[:w], 'little', signed=…)` (lenient on short input). -/
 def decInt (w : Nat) (signed : Bool) (bs : Bytes) : Int :=
-  if signed then decS w bs else (decU w bs : Int)
+  let t := bs.take w
+  if signed then toSigned (256 ^ t.length) (leNat t) else (leNat t : Int)
 
 /-! ### enums -/
 
@@ -81,7 +88,12 @@ def arraySize (sizes : List Nat) (alignment : Nat) (padLast : Bool) : Nat :=
   else if padLast then (sizes.map (alignUp · alignment)).sum
   else ((sizes.dropLast).map (alignUp · alignment)).sum + (sizes.getLast?.getD 0)
 
-def elemSizes (rec : Rec) (elem : String) (l : List Val) : R (List Nat) := l.mapM (rec.size elem)
+def elemSizes (rec : Rec) (elem : String) : List Val → R (List Nat)
+  | [] => .ok []
+  | v :: rest => do
+    let s ← rec.size elem v
+    let ss ← elemSizes rec elem rest
+    .ok (s :: ss)
 
 /-- the `…_computed` getter of a `@sizeref` member: `0 if not self.x else self.x.size + delta` -/
 def sizeRefValue (rec : Rec) (fields : List Field) (vs : List (String × Val)) (target : String) (delta : Int) : R Int :=
@@ -126,10 +138,15 @@ def fieldSize (rec : Rec) (f : Field) (v : Option Val) : R Nat :=
     | _ => .error .shape
 
 /-- `size` property of a struct object: the sum over all serialized members whose condition holds -/
-def structSize (rec : Rec) (d : StructDef) (vs : List (String × Val)) : R Nat :=
-  d.fields.foldlM (fun acc f => do
+def sizeFrom (rec : Rec) (d : StructDef) (vs : List (String × Val)) : List Field → R Nat
+  | [] => .ok 0
+  | f :: rest => do
     let present ← condOnObject rec d.fields vs f
-    if present then do let s ← fieldSize rec f (Val.get vs f.name); .ok (acc + s) else .ok acc) 0
+    let s ← (if present then fieldSize rec f (Val.get vs f.name) else .ok 0)
+    let t ← sizeFrom rec d vs rest
+    .ok (s + t)
+
+def structSize (rec : Rec) (d : StructDef) (vs : List (String × Val)) : R Nat := sizeFrom rec d vs d.fields
 
 def typeSizeStep (S : Schema) (rec : Rec) (ty : String) (v : Val) : R Nat :=
   match S.find ty with
@@ -139,7 +156,12 @@ def typeSizeStep (S : Schema) (rec : Rec) (ty : String) (v : Val) : R Nat :=
   | some (.struct d) =>
     match v with
     | .struct vty vs =>
-      if d.abstract then (if vty == ty then .error .shape else rec.size vty v)
+      if d.abstract then
+        if vty == ty then .error .shape else
+        -- the object's own `size` property: dispatching to the concrete class spends no recursion depth
+        match S.find vty with
+        | some (.struct dc) => if dc.abstract then rec.size vty v else structSize rec dc vs
+        | _ => rec.size vty v
       else if vty == ty then structSize rec d vs else .error .shape
     | _ => .error .shape
   | none => .error .unknownType
@@ -207,8 +229,13 @@ def strictlyAscending : List (List KeyPart) → Bool
 
 /-! ### encoding -/
 
-def encArrayPlain (rec : Rec) (elem : String) (l : List Val) : R Bytes :=
-  l.foldlM (fun acc v => do let b ← rec.enc elem v; .ok (acc ++ b)) []
+/-- `write_array`: the element encodings one after another -/
+def encArrayPlain (rec : Rec) (elem : String) : List Val → R Bytes
+  | [] => .ok []
+  | v :: rest => do
+    let b ← rec.enc elem v
+    let t ← encArrayPlain rec elem rest
+    .ok (b ++ t)
 
 /-- `write_variable_size_elements`: each element followed by zero padding to the alignment,
     except (when `padLast` is false) after the last one; padding uses the element's `size`. -/
@@ -266,10 +293,17 @@ def encField (S : Schema) (T : String → Bytes → Bytes) (rec : Rec) (d : Stru
           if strictlyAscending keys then encArrayPlain rec elem l else .error .unsorted
     | _ => .error .shape
 
-def encStruct (S : Schema) (T : String → Bytes → Bytes) (rec : Rec) (d : StructDef) (vs : List (String × Val)) : R Bytes :=
-  d.fields.foldlM (fun acc f => do
+/-- `serialize`: the members whose condition holds, in layout order -/
+def encFrom (S : Schema) (T : String → Bytes → Bytes) (rec : Rec) (d : StructDef) (vs : List (String × Val)) : List Field → R Bytes
+  | [] => .ok []
+  | f :: rest => do
     let present ← condOnObject rec d.fields vs f
-    if present then do let b ← encField S T rec d vs f; .ok (acc ++ b) else .ok acc) []
+    let b ← (if present then encField S T rec d vs f else .ok [])
+    let t ← encFrom S T rec d vs rest
+    .ok (b ++ t)
+
+def encStruct (S : Schema) (T : String → Bytes → Bytes) (rec : Rec) (d : StructDef) (vs : List (String × Val)) : R Bytes :=
+  encFrom S T rec d vs d.fields
 
 /-- the object must hold exactly the value-carrying members, in layout order -/
 def shapeOk (d : StructDef) (vs : List (String × Val)) : Bool :=
@@ -291,7 +325,14 @@ def encTypeStep (S : Schema) (T : String → Bytes → Bytes) (rec : Rec) (ty : 
     | .struct vty vs =>
       if d.abstract then
         -- a member or element of abstract type holds an object of one of its concrete children
-        if (S.children ty).any (·.1 == vty) then rec.enc vty v else .error .shape
+        -- (its own `serialize`: dispatching to the concrete class spends no recursion depth)
+        if (S.children ty).any (·.1 == vty) then
+          match S.find vty with
+          | some (.struct dc) =>
+            if dc.abstract then rec.enc vty v
+            else if shapeOk dc vs then encStruct S T rec dc vs else .error .shape
+          | _ => rec.enc vty v
+        else .error .shape
       else if vty == ty && shapeOk d vs then encStruct S T rec d vs
       else .error .shape
     | _ => .error .shape
@@ -407,59 +448,79 @@ def condOnEnv (env : List (String × Val)) (c : Cond) : R Bool := do
   let a ← envInt env c.field
   condHolds c.op c.value a
 
+/-- one member read from the temporary buffer (`acc` = the locals and what is left of the buffer) -/
+def flushStep (S : Schema) (T : String → Bytes → Bytes) (rec : Rec) (acc : List (String × Val) × Bytes) (f : Field) :
+    R (List (String × Val) × Bytes) :=
+  match f.cond with
+  | some c => do
+    let present ← condOnEnv acc.1 c
+    if present then do
+      let (v, adv) ← decPayload S T rec acc.1 f acc.2
+      pure (acc.1 ++ [(f.name, v)], acc.2.drop adv)
+    else pure (acc.1 ++ [(f.name, Val.none)], acc.2)
+  | none => .error .unsupported
+
 /-- members queued behind discriminant `n` are read from the temporary buffer once `n` is known -/
 def flushQueued (S : Schema) (T : String → Bytes → Bytes) (rec : Rec) (n : String) (st : DecState) : R DecState :=
   match st.queued.find? (·.1 == n) with
   | none => .ok st
   | some (_, temp, fs) => do
-    let (env, _) ← fs.foldlM (fun (acc : List (String × Val) × Bytes) f => do
-      let (env, temp) := acc
-      match f.cond with
-      | some c =>
-        if ← condOnEnv env c then do
-          let (v, adv) ← decPayload S T rec env f temp
-          pure (env ++ [(f.name, v)], temp.drop adv)
-        else pure (env ++ [(f.name, Val.none)], temp)
-      | none => throw .unsupported) (st.env, temp)
-    .ok { st with env := env, queued := st.queued.filter (·.1 != n) }
+    let acc ← fs.foldlM (flushStep S T rec) (st.env, temp)
+    .ok { st with env := acc.1, queued := st.queued.filter (·.1 != n) }
+
+/-- boundary between inherited and own members: `buffer = buffer[window_start:window_end]` -/
+def rebase (d : StructDef) (st : DecState) (idx : Nat) : DecState :=
+  if d.base.isSome && idx == d.inherited then
+    match st.sizeVal with
+    | some sz => { st with buf := st.buf.drop (sz - st.origLen) }
+    | none => st
+  else st
+
+/-- a condition-guarded member -/
+def decCondField (S : Schema) (T : String → Bytes → Bytes) (rec : Rec) (st : DecState) (c : Cond) (f : Field) : R DecState :=
+  if (Val.get st.env c.field).isSome then do
+    let present ← condOnEnv st.env c
+    if present then do
+      let (v, adv) ← decPayload S T rec st.env f st.buf
+      pure { st with buf := st.buf.drop adv, env := st.env ++ [(f.name, v)] }
+    else pure { st with env := st.env ++ [(f.name, Val.none)] }
+  else
+    -- the discriminant comes later: first such member is read into a temporary buffer
+    match st.queued.find? (·.1 == c.field) with
+    | some _ => pure { st with queued := st.queued.map fun q => if q.1 == c.field then (q.1, q.2.1, q.2.2 ++ [f]) else q }
+    | none => do
+      let (_, adv) ← decPayload S T rec st.env f st.buf
+      pure { st with buf := st.buf.drop adv, queued := st.queued ++ [(c.field, st.buf.take adv, [f])] }
+
+/-- the state after an unconditional member with value `v` spanning `adv` bytes -/
+def afterPlain (st : DecState) (f : Field) (v : Val) (adv : Nat) : DecState :=
+  match f.kind with
+  | .sizeF _ =>
+    -- `buffer = buffer[w:size_]`
+    let sz := match v with | .int i => i.toNat | _ => 0
+    { st with buf := (st.buf.take sz).drop adv, env := st.env ++ [(f.name, v)], sizeVal := some sz }
+  | _ => { st with buf := st.buf.drop adv, env := st.env ++ [(f.name, v)] }
+
+/-- an unconditional member -/
+def decPlainField (S : Schema) (T : String → Bytes → Bytes) (rec : Rec) (st : DecState) (f : Field) : R DecState := do
+  let (v, adv) ← decPayload S T rec st.env f st.buf
+  flushQueued S T rec f.name (afterPlain st f v adv)
 
 def decFieldStep (S : Schema) (T : String → Bytes → Bytes) (rec : Rec) (d : StructDef)
-    (st : DecState) (idx : Nat) (f : Field) : R DecState := do
-  -- boundary between inherited and own members: `buffer = buffer[window_start:window_end]`
-  let st := if d.base.isSome && idx == d.inherited then
-      match st.sizeVal with
-      | some sz => { st with buf := st.buf.drop (sz - st.origLen) }
-      | none => st
-    else st
+    (st : DecState) (idx : Nat) (f : Field) : R DecState :=
+  let st := rebase d st idx
   match f.cond with
-  | some c =>
-    if (Val.get st.env c.field).isSome then
-      if ← condOnEnv st.env c then do
-        let (v, adv) ← decPayload S T rec st.env f st.buf
-        pure { st with buf := st.buf.drop adv, env := st.env ++ [(f.name, v)] }
-      else pure { st with env := st.env ++ [(f.name, Val.none)] }
-    else
-      -- the discriminant comes later: first such member is read into a temporary buffer
-      match st.queued.find? (·.1 == c.field) with
-      | some _ => pure { st with queued := st.queued.map fun q => if q.1 == c.field then (q.1, q.2.1, q.2.2 ++ [f]) else q }
-      | none => do
-        let (_, adv) ← decPayload S T rec st.env f st.buf
-        pure { st with buf := st.buf.drop adv, queued := st.queued ++ [(c.field, st.buf.take adv, [f])] }
-  | none => do
-    let (v, adv) ← decPayload S T rec st.env f st.buf
-    let st := match f.kind with
-      | .sizeF _ =>
-        -- `buffer = buffer[w:size_]`
-        let sz := match v with | .int i => i.toNat | _ => 0
-        { st with buf := (st.buf.take sz).drop adv, env := st.env ++ [(f.name, v)], sizeVal := some sz }
-      | _ => { st with buf := st.buf.drop adv, env := st.env ++ [(f.name, v)] }
-    flushQueued S T rec f.name st
+  | some c => decCondField S T rec st c f
+  | none => decPlainField S T rec st f
 
-def decFields (S : Schema) (T : String → Bytes → Bytes) (rec : Rec) (d : StructDef) (fields : List Field) (buf : Bytes) : R DecState := do
-  let (st, _) ← fields.foldlM (fun (acc : DecState × Nat) f => do
-    let st ← decFieldStep S T rec d acc.1 acc.2 f
-    pure (st, acc.2 + 1)) ({ buf := buf, origLen := buf.length }, 0)
-  pure st
+def decFrom (S : Schema) (T : String → Bytes → Bytes) (rec : Rec) (d : StructDef) : List Field → Nat → DecState → R DecState
+  | [], _, st => .ok st
+  | f :: rest, idx, st => do
+    let st' ← decFieldStep S T rec d st idx f
+    decFrom S T rec d rest (idx + 1) st'
+
+def decFields (S : Schema) (T : String → Bytes → Bytes) (rec : Rec) (d : StructDef) (fields : List Field) (buf : Bytes) : R DecState :=
+  decFrom S T rec d fields 0 { buf := buf, origLen := buf.length }
 
 /-- project the decoded locals to the object state -/
 def objectOf (d : StructDef) (env : List (String × Val)) : R (List (String × Val)) :=
@@ -467,6 +528,12 @@ def objectOf (d : StructDef) (env : List (String × Val)) : R (List (String × V
     match Val.get env f.name with
     | some v => .ok (f.name, v)
     | none => .error .missing
+
+/-- `<ty>.deserialize` of a concrete struct class -/
+def decConcrete (S : Schema) (T : String → Bytes → Bytes) (rec : Rec) (ty : String) (d : StructDef) (buf : Bytes) : R Val := do
+  let st ← decFields S T rec d d.fields buf
+  let vs ← objectOf d st.env
+  .ok (.struct ty vs)
 
 def decTypeStep (S : Schema) (T : String → Bytes → Bytes) (rec : Rec) (ty : String) (buf : Bytes) : R Val :=
   match S.find ty with
@@ -481,12 +548,13 @@ def decTypeStep (S : Schema) (T : String → Bytes → Bytes) (rec : Rec) (ty : 
       let st ← decFields S T rec d d.fields buf
       let disc ← d.disc.mapM (envInt st.env)
       match ((S.children ty).filter (fun c => c.2.discValues == disc)).getLast? with
-      | some (child, _) => rec.dec child buf
+      | some (child, _) =>
+        -- `factory_class.deserialize(buffer)`: the dispatch spends no recursion depth
+        match S.find child with
+        | some (.struct dc) => if dc.abstract then rec.dec child buf else decConcrete S T rec child dc buf
+        | _ => rec.dec child buf
       | none => .error .factory
-    else do
-      let st ← decFields S T rec d d.fields buf
-      let vs ← objectOf d st.env
-      .ok (.struct ty vs)
+    else decConcrete S T rec ty d buf
   | none => .error .unknownType
 
 /-! ### closing the recursion with fuel -/
